@@ -165,6 +165,30 @@ def check(ctx) -> None:
     ctx.instance("C14-S1", "append side chosen from the unbalance label only", si.loc(side[0]) if side else si.loc(), ok=oks)
     if not oks:
         ctx.finding("C14-S1", "SyntheticRuleImputer.single_impute:side-selection", si.loc(), "the side that receives the completion is not chosen from the unbalance label alone")
+    # ---------------------------------------------------------------- S3
+    ctx.rule("C14-S3", "the solver never selects 'the first' entry of the imbalance / rule mapping (key order = spelling order)", 5)
+    solver_funcs = [MATCHER + "." + m for m in ("__init__", "match", "dfs", "apply_rule", "can_match", "exit_strategy_solution")] + ["synrbl.SynRuleImputer.synthetic_rule_imputer.SyntheticRuleImputer.single_impute"]
+    for q in solver_funcs:
+        g = prog.func(q)
+        params = set(g.params) | {"self.data_dict"}
+        bad = None
+        for n in own_nodes(g.node):
+            if isinstance(n, ast.Call) and isinstance(n.func, ast.Name) and n.func.id == "next" and n.args:
+                a = n.args[0]
+                src = None
+                if isinstance(a, (ast.GeneratorExp, ast.ListComp)):
+                    src = a.generators[0].iter
+                elif isinstance(a, ast.Call) and getattr(a.func, "id", "") == "iter" and a.args:
+                    src = a.args[0]
+                if src is not None and (unparse(src).split(".items")[0].split(".keys")[0] in params or (isinstance(src, ast.Subscript) and unparse(src.value) in params)):
+                    bad = n
+            if isinstance(n, ast.Subscript) and isinstance(n.slice, ast.Constant) and isinstance(n.slice.value, int) and isinstance(n.value, ast.Call) and getattr(n.value.func, "id", "") in ("list", "tuple") and n.value.args and unparse(n.value.args[0]).split(".keys")[0].split(".items")[0] in params:
+                bad = n
+            if isinstance(n, ast.Call) and isinstance(n.func, ast.Attribute) and n.func.attr == "popitem" and unparse(n.func.value) in params:
+                bad = n
+        ctx.instance("C14-S3", "%s: no first-entry selection from a mapping parameter" % q.split(".")[-1], g.loc(), ok=bad is None)
+        if bad is not None:
+            ctx.finding("C14-S3", "%s:first-entry-of-mapping" % q.split("synrbl.", 1)[-1].split(".", 1)[-1], g.loc(bad), "`%s` picks the first entry of a mapping whose key order is the order in which the elements occur in the SMILES: two spellings of one reaction can get different completions" % unparse(bad)[:60])
     # ---------------------------------------------------------------- S2
     path = ctx.res.reachable(PATH_ROOTS, ctx.graph)
     by_func: Dict[str, List] = {}
@@ -207,3 +231,7 @@ def check(ctx) -> None:
             gating[0].where(),
             "substring / regex test on a joined side string that carries the given molecules gates the outcome (%s); it sees how and in which order the molecules are written" % "; ".join(o.detail for o in gating),
         )
+    # S4: the carbon label counts molecules, not distinct spellings (shared with C07-E6)
+    from . import c07
+
+    c07.rule_e6(ctx, "C14-S4")
